@@ -371,6 +371,73 @@ LONGTAG = [
 ]
 
 
+def _numvec(text):
+    return '<newNumberVector device="d" name="n"><oneNumber name="x">%s</oneNumber></newNumberVector>' % text
+
+
+# complete, well-formed elements whose VALUES are pathological for a validator (long runs of one character class
+# ending in something that does not belong there - the shape on which a backtracking matcher explodes), for an XML
+# parser (depth, width) or for a decoder.  Whether each is a valid message does not matter: processing must return
+# promptly, deliver nothing that is not genuine and go on with the messages around it.
+PATHO = [
+    ("digits-then-letter", _numvec("1" * 400 + "x")),
+    ("digits-dots", _numvec("1." * 200)),
+    ("dots", _numvec("." * 400)),
+    ("colon-fields-then-letter", _numvec("1:" * 200 + "x")),
+    ("blank-run-then-letter", _numvec("1" + " " * 400 + "x")),
+    ("separator-runs", _numvec("1" + ": ;" * 50 + "2")),
+    ("signs", _numvec("+-" * 70 + "1")),
+    ("exponent-run", _numvec("1e" + "9" * 150)),
+    ("digits-valid", _numvec("9" * 400)),
+    ("switch-run", '<newSwitchVector device="d" name="n"><oneSwitch name="a">%s</oneSwitch></newSwitchVector>' % ("On" * 100)),
+    ("state-run", '<setNumberVector device="d" name="n" state="%s"><oneNumber name="e">1</oneNumber></setNumberVector>' % ("Ok" * 100)),
+    ("base64-then-junk", '<newBLOBVector device="d" name="n"><oneBLOB name="a" size="3" format=".x">%s!</oneBLOB></newBLOBVector>' % ("QUJD" * 300)),
+    ("size-run", '<newBLOBVector device="d" name="n"><oneBLOB name="a" size="%s" format=".x">QUJD</oneBLOB></newBLOBVector>' % ("9" * 200)),
+    ("deep-nesting", '<delProperty device="d">%s%s</delProperty>' % ("<b>" * 150, "</b>" * 150)),
+    ("many-attributes", "<enableBLOB device=\"d\" %s>Also</enableBLOB>" % " ".join('a%d="v"' % i for i in range(150))),
+    ("many-children", '<newNumberVector device="d" name="n">%s</newNumberVector>' % "".join('<oneNumber name="x%d">1.5</oneNumber>' % i for i in range(60))),
+    ("timestamp-run", '<setLightVector device="d" name="n" state="Ok" timestamp="%s"><oneLight name="e">Ok</oneLight></setLightVector>' % ("2020-01-01T" * 30)),
+]
+
+
+def patho_check(res, record):
+    for label, elem in PATHO:
+        S = V1 + elem + "\n" + V2
+        for tname, T in (("2048", 2048), ("None", None)):
+            if T is not None and len(elem) > T:
+                continue
+            sched = [[S], [S[j : j + 1024] for j in range(0, len(S), 1024)], [S[j : j + 64] for j in range(0, len(S), 64)], [V1 + elem, "\n" + V2]]
+            for pieces in sched:
+                out = BG.run_pieces(pieces, T, cpu_limit=2.0)
+                res["streams"] += 1
+                res["modeB"] += 1
+                res["transitions"] += len(out)
+                delivered = [m for d, exc, dl, data in out for m in d]
+                res["deliveries"] += len(delivered)
+                fails = []
+                for d, exc, dl, data in out:
+                    if isinstance(exc, (BG.Hang, BG.Livelock)):
+                        fails.append(("hang", "pathological=%s" % label, "process() did not return within the CPU limit: %r" % (exc,)))
+                    elif exc is not None:
+                        from mc import lib
+
+                        fails.append(("raises", "pathological=%s,%s" % (label, lib.exc_site(exc)), repr(exc)))
+                if not fails:
+                    views = [safe_view(m) for m in delivered]
+                    genuine = [X.view_of_xml(V1), X.view_of_xml(V2)]
+                    etag = elem[1:].split(" ", 1)[0]  # no pathological element shares its tag with V1 / V2
+                    odd = [v for v in views if v not in genuine and v[0] != etag]
+                    if odd or sum(1 for v in views if v[0] == etag) > 1:
+                        fails.append(("not-genuine", "pathological=%s" % label, "delivered %r" % (odd[:2] or views,)))
+                    core = [v for v in views if v in genuine[:2]]
+                    if core != genuine[:2]:
+                        fails.append(("valid-message-lost", "pathological=%s" % label, "the valid messages around the element were delivered as %r" % (core,)))
+                    if T is not None and out and out[-1][2] > T:
+                        fails.append(("retention", "pathological=%s" % label, "%d characters retained, threshold %d" % (out[-1][2], T)))
+                if fails:
+                    record("patho:%s" % label, S, T, tname, fails, pieces, {"mode": "patho", "label": label})
+
+
 def longtag_streams():
     """valid messages of the kinds the fragment alphabet does not contain (the longest tag names, and the vector
     whose child tag is also a top-level tag) between non-imitating junk: strict promptness under ALL partitions"""
@@ -391,6 +458,7 @@ def shards(tier, seed):
     for k in range(len(LONGTAG)):
         sh.append((tier, "longtag", k))
     sh.append((tier, "transport", 0))
+    sh.append((tier, "patho", 0))
     cases = list(trunc_cases(tier))
     nshard = 61  # prime: coprime with the case strides below, so heavy cases spread over shards
     heavy = [(tier, "trunc", s, nshard) for s in range(nshard)]
@@ -476,6 +544,11 @@ def run_shard(shard):
                         loop.teardown()
         res["states"] = res["streams"]
         res["violations"] = list(sig.values())
+        return res
+    if what == "patho":
+        patho_check(res, record)
+        res["violations"] = list(sig.values())
+        res["counters"]["pathological_elements"] = len(PATHO)
         return res
     if what == "longtag":
         frs = list(longtag_streams())[shard[2]]
@@ -644,6 +717,9 @@ def _t(x):
 
 
 def replay(rep):
+    if rep.get("mode") == "patho":
+        r = run_shard(("quick", "patho", 0))
+        return [{"clause": v["clause"], "disc": v["disc"], "what": v["what"]} for v in r["violations"]]
     if rep.get("mode") == "transport":
         r = run_shard(("quick", "transport", 0))
         return [{"clause": v["clause"], "disc": v["disc"], "what": v["what"]} for v in r["violations"]]
